@@ -972,16 +972,25 @@ impl FromStr for Epoch {
                 details: "less than 7 characters",
             })
         } else {
-            let format = if &s[..2] == "JD" {
+            let format = if s.starts_with("JD") {
                 "JD"
-            } else if &s[..3] == "MJD" {
+            } else if s.starts_with("MJD") {
                 "MJD"
-            } else if &s[..3] == "SEC" {
+            } else if s.starts_with("SEC") {
                 "SEC"
             } else {
                 // Not a valid format, hopefully it's a Gregorian date.
                 return Self::from_gregorian_str(s_in);
             };
+
+            if !s.is_ascii() {
+                // The numerical formats are only made of ASCII characters, and the byte indexes
+                // used below could otherwise fall inside a multi-byte character.
+                return Err(HifitimeError::Parse {
+                    source: ParsingError::ValueError,
+                    details: "parsing as JD, MJD, or SEC",
+                });
+            }
 
             // This is a valid numerical format.
             // Parse the time scale from the last three characters (TS trims white spaces).
@@ -1000,6 +1009,14 @@ impl FromStr for Epoch {
                     })
                 }
             };
+
+            if !value.is_finite() {
+                // The initializers assert that the value is finite.
+                return Err(HifitimeError::Parse {
+                    source: ParsingError::ValueError,
+                    details: "parsing as JD, MJD, or SEC",
+                });
+            }
 
             match format {
                 "JD" => match ts {
